@@ -426,6 +426,17 @@ def run_standalone(recipe, cfg, cdir, scratch, logf, parse_result_file, classify
     try:
         parts = []
         for item in items:
+            if item.get("optional"):
+                # an item that exists only in some versions of the code (e.g. a helper a fix
+                # introduced): absent -> skipped and recorded, present -> extracted as usual
+                try:
+                    text, meta = extract_item(scratch, item, counts, applied)
+                except rustscan.LostAnchor:
+                    applied.append({"rule": "optional-item-absent", "find": item["name"], "replace": "", "count": 0})
+                    continue
+                parts.append(f"// ---- extracted: {meta['item']} from {meta['where']} ----\n" + text)
+                items_meta.append(meta)
+                continue
             text, meta = extract_item(scratch, item, counts, applied)
             parts.append(f"// ---- extracted: {meta['item']} from {meta['where']} ----\n" + text)
             items_meta.append(meta)
